@@ -32,7 +32,10 @@ def get_tree(rep, f, rule, ident, level="op", inline_extra=(), keep=()):
         rep.fail(rule, ident, "unsupported:" + ident, "cannot evaluate %s: %s" % (ident, u), where=H.where(b))
         return None, b
 
+_N = norm.Normalizer("E", opcomm=True)
+
 def expect_equiv(rep, rule, inst, key, got, ref, body, what, leaf_eq=D.default_leaf_eq, **kw):
+    got = D.map_terms(got, _N.norm); ref = D.map_terms(ref, _N.norm)
     try:
         m = D.equivalent(got, ref, leaf_eq)
     except RuntimeError as e:
